@@ -515,7 +515,11 @@ func c03Redispatch(c *Ctx) {
 			c.Check(s.IsZero(), rule, fn, "trigger-then-delete", nil, "every trigger event is followed by delete(bc.subscriptions, child)",
 				"a subscription is redispatched but stays subscribed on the old broker worker: it is fetched by two workers (duplicates)", path)
 			// result value
-			result := func(v ssa.Value) bool { return FieldLoad("partitionConsumer.responseResult")(v) }
+			// (the local copy of the result may live in a cell once a literal captures it — a predicate helper
+			// inlined back: look through a cell that is stored once)
+			result := func(v ssa.Value) bool {
+				return FieldLoad("partitionConsumer.responseResult")(v) || FieldLoad("partitionConsumer.responseResult")(throughCell(v))
+			}
 			nonNil := Cmp{token.NEQ, result, IsNil()}
 			timedOut := Cmp{token.EQL, result, GlobalLoad("errTimedOut")}
 			n := 0
